@@ -12,8 +12,29 @@ EVALS = []
 LONG = 'L' * 205          # a string argument that makes string / raw keys longer than 200 characters (still a legal file name)
 
 
+class Tagged(object):
+    """an argument that is an instance of a user class (in a worker session this class lives in __main__, so dill may
+    pickle it by value: its method holds a set literal, i.e. a frozenset constant laid out by the hash seed)"""
+    def __init__(self, tag):
+        self.tag = tag
+
+    def known(self):
+        return self.tag in {'alpha', 'beta', 'gamma', 'delta', 'epsilon'}
+
+    def __eq__(self, other):
+        return type(other).__name__ == 'Tagged' and other.tag == self.tag
+
+    def __hash__(self):
+        return 7
+
+    def __repr__(self):
+        return 'Tagged(%r)' % (self.tag,)
+
+
 def val(v):
     t, c = v['t'], v['v']
+    if t == 'obj':
+        return Tagged('alpha')
     if t == 'int':
         return int(c)
     if t == 'float':
@@ -38,6 +59,8 @@ def unval(x):
         return {'t': 'str', 'v': {'a': 100, 'x': 101, 'y': 102, 'k': 103, 'z': 104, '1': 110, LONG: 111}.get(x, 199)}
     if x is None:
         return {'t': 'none', 'v': 0}
+    if type(x).__name__ == 'Tagged':
+        return {'t': 'obj', 'v': 120}
     return {'t': 'other', 'v': 0}
 
 
@@ -95,6 +118,9 @@ def make_keymap(klepto, km, serializer='pickle', algorithm='md5'):
     if km['enc'] == 'str':
         return K.stringmap(**kw)
     if km['enc'] == 'pickle':
+        if serializer == 'dill-module':      # the module itself, as the class docstring suggests
+            import dill
+            return K.picklemap(serializer=dill, **kw)
         return K.picklemap(serializer=serializer, **kw) if serializer else K.picklemap(**kw)
     if km['enc'] == 'hash':
         return K.hashmap(algorithm=algorithm, **kw)
@@ -253,9 +279,20 @@ def worker(jobfile, outfile):
                 cache = A.sqltable_archive('sqlite:///%s?table=memo' % loc, cached=True)
             f = klepto.inf_cache(cache=cache, keymap=make_keymap(klepto, km, **(variant or {})),
                                  ignore=ignore_tuple(group['ign']))(func)
+            rawf, _ = make_func(group['sig'], 'raw')
+            written = set()
             for c in group['calls']:
                 args = [val(v) for v in c['p']]
                 kwargs = {it['n']: val(it['v']) for it in c['k']}
+                if job['mode'] == 'write':
+                    # the writer makes each distinct call once, in the first spelling the catalogue has for it; the
+                    # readers then make every spelling: all of them must be answered from the archive
+                    tok = repr(rawf(*args, **kwargs))
+                    if tok in written:
+                        res['kinds'].append('skipped')
+                        res['evals'].append(0)
+                        continue
+                    written.add(tok)
                 i0 = f.info()
                 n0 = len(EVALS)
                 try:
